@@ -119,6 +119,12 @@ def step (st : St) (line : String) : St × String :=
     match parseInt n with
     | some n => doOp st (.maxframe n)
     | none => (st, "bad-op")
+  | ["pparse", b, c] =>
+    -- Go-side oracle only (parseRFC9218Priority post-condition); nothing to model
+    match parseBytes b, parseBool c, st.s, st.p with
+    | some _, some _, some _, _ => (st, "ok")
+    | some _, some _, none, some _ => (st, "ok")
+    | _, _, _, _ => (st, "bad-op")
   | ["dump"] =>
     match st.s, st.p with
     | some s, _ => (st, "ok " ++ dumpSched s)
